@@ -1083,6 +1083,11 @@ impl World {
                 ctx.tag("giant_nontrivial");
             }
         }
+        if let Op::PushStr { .. } | Op::InsertStr { .. } = op {
+            if r.text.len() >= 1 << 20 && pre_t.as_ref().is_some_and(|p| p.kind != Kind::Inline) {
+                ctx.tag("giant_nontrivial");
+            }
+        }
         if let Op::Extend { it, .. } | Op::Collect { it, .. } = op {
             if it.hint.is_some_and(|h| h >= 1 << 20) {
                 ctx.tag("giant_nontrivial");
